@@ -19,6 +19,9 @@ def handle (fn : String) (args : List Json) : String :=
   | "compact" => match args with
     | [a0, a1] => (do let x0 ← Wire.decStr a0; let x1 ← Wire.decBool a1; pure (Wire.respondWith Wire.encStr (Gen.meid.compact x0 x1)) : Option String).getD "badargs"
     | _ => "badargs"
+  | "format" => match args with
+    | [a0, a1, a2, a3] => (do let x0 ← Wire.decStr a0; let x1 ← Wire.decStr a1; let x2 ← (Wire.decOpt Wire.decStr) a2; let x3 ← Wire.decBool a3; pure (Wire.respondWith Wire.encStr (Gen.meid.format x0 x1 x2 x3)) : Option String).getD "badargs"
+    | _ => "badargs"
   | "is_valid" => match args with
     | [a0] => (do let x0 ← Wire.decStr a0; pure (Wire.respondWith Wire.encBool (Gen.meid.is_valid x0)) : Option String).getD "badargs"
     | _ => "badargs"
